@@ -6,6 +6,7 @@ universe with If-merging of the loop state (pysym.guarded_for); it is applied to
 break/return/yield in the body).  What the extraction drops: everything outside the region (represented by the contract's
 requires on the region's free variables); nothing inside it.
 """
+from vlib.env import Unanchored
 import ast
 import copy
 
@@ -23,7 +24,7 @@ def find_function(tree, qualname):
                 node = n
                 break
         else:
-            raise LookupError(f'{qualname}: {part} not found')
+            raise Unanchored(f'{qualname}: {part} not found')
     return node
 
 
@@ -31,20 +32,26 @@ _KINDS = {'for': ast.For, 'if': ast.If, 'while': ast.While, 'try': ast.Try, 'wit
 
 
 def locate(fnode, path):
-    """path 'for[0]/if[1]/else/for[0]' -> the addressed statement node"""
+    """path 'for[0]/if[1]/else/for[0]' -> the addressed statement node; a step may carry a content anchor: 'for[0]{bits1}'"""
     node, body = fnode, fnode.body
-    for step in [p for p in path.split('/') if p]:
+    import re
+    for step in [p for p in re.split(r'/(?![^{]*})', path) if p]:
         if step == 'else':
             body = node.orelse
             continue
         if step == 'body':
             body = node.body
             continue
+        needle = None
+        if step.endswith('}'):                       # 'for[0]{bits1}': the idx-th `for` among those whose source text contains the needle
+            step, _, needle = step[:-1].partition('{')
         kind, _, idx = step.partition('[')
         idx = int(idx.rstrip(']'))
         cands = [s for s in body if isinstance(s, _KINDS[kind])]
+        if needle is not None:
+            cands = [s for s in cands if needle in ast.unparse(s)]
         if idx >= len(cands):
-            raise LookupError(f'region {path}: step {step} not found')
+            raise Unanchored(f'region {path}: step {step}' + (f' containing {needle!r}' if needle else '') + ' not found')
         node = cands[idx]
         body = node.body
     return node
